@@ -1,5 +1,12 @@
 import Toq.Proofs.ChanMetrics
+import Toq.Proofs.ChanMetricsUnitary
+import Toq.Proofs.ChanMetricsPath
+import Toq.Proofs.ChanMetricsSpectral
+import Toq.Proofs.MetricsWatrousGen
 import Mathlib.Data.Real.Pointwise
+import Mathlib.Analysis.Convex.Topology
+import Mathlib.Analysis.Convex.Combination
+import Mathlib.Topology.MetricSpace.HausdorffDistance
 /-!
 # C20 — channel distance measures: completely bounded trace norm / diamond distance and channel fidelity
 
@@ -405,6 +412,396 @@ theorem cf_le_choi_fidelity [Nonempty X] {J1 J2 Q W0 W1 : Choi X Y} {lam : ℝ}
     field_simp
   rwa [e] at h
 
+/-! ## Choi-matrix bounds in terms of the trace norm
+
+`Toq.Metrics.traceNormV H` is the trace norm of C13 (`sup Re tr(W H)` over Hermitian contractions `W`), proved there to be
+the sum of the moduli of the eigenvalues of a Hermitian `H` (`Toq.Metrics.traceNormV_eq_sum_abs_eigenvalues`). -/
+
+open Toq.Metrics in
+/-- **Upper bound from an operator dominating `±J`**: if `J` is Hermitian (the map preserves Hermiticity), `Y0 ⪰ J`,
+`Y0 ⪰ −J` and `c·1 ⪰ Tr_Y Y0`, then the cb trace norm of `J` is at most `c` (the point `(Y0, Y0, c, c)` is dual feasible).
+With `Y0 = |J|` this is `‖Φ‖_◇ ≤ ‖Tr_Y |J|‖_∞`. -/
+theorem cbNorm_le_of_pm [Nonempty X] {J Y0 : Choi X Y} {c : ℝ} (hJ : J.IsHermitian) (hm : (Y0 - J).PosSemidef)
+    (hp : (Y0 + J).PosSemidef) (hc : ((c : ℂ) • (1 : Matrix X X ℂ) - ptr2 Y0).PosSemidef) : cbNorm J ≤ c := by
+  have hD : CbDualFeasible J Y0 Y0 c c := ⟨psd_block_of_pm hJ hm hp, hc, hc⟩
+  have := cbNorm_le_of_dual J hD
+  linarith
+
+open Toq.Metrics in
+/-- **Upper Choi-matrix bound**: the cb trace norm of a Hermiticity-preserving map is at most the trace norm of its
+(unnormalised) Choi matrix, `‖Φ‖_◇ ≤ ‖J‖₁`.  (Dual-feasible point from the Jordan decomposition `J = P − Q`:
+`(P + Q, P + Q, c, c)` with `c = tr(P + Q) = ‖J‖₁ ≥ λ_max(Tr_Y(P + Q))`.) -/
+theorem diamond_choi_upper [Nonempty X] {J : Choi X Y} (hJ : J.IsHermitian) : cbNorm J ≤ traceNormV J := by
+  obtain ⟨P, Q, hP, hQ, hJe, htr⟩ := exists_jordan_traceNormV hJ
+  have hc := psd_trace_smul_one_sub (ptr2_posSemidef (hP.add hQ))
+  rw [trace_ptr2] at hc
+  have h := cbNorm_le_of_dual _ (cb_jordan_dual_cert hP hQ hc)
+  rw [← hJe] at h
+  rw [← htr]
+  rw [Matrix.trace_add, Complex.add_re] at h
+  linarith
+
+open Toq.Metrics in
+/-- **Lower Choi-matrix bound**: the cb trace norm of a Hermiticity-preserving map is at least the trace norm of its
+normalised Choi matrix, `‖J‖₁ / dX ≤ ‖Φ‖_◇`. -/
+theorem diamond_choi_lower_traceNorm [Nonempty X] {J : Choi X Y} (hJ : J.IsHermitian) :
+    traceNormV J / Fintype.card X ≤ cbNorm J := by
+  have hcard : (0 : ℝ) < Fintype.card X := by exact_mod_cast Fintype.card_pos
+  rw [div_le_iff₀ hcard]
+  refine csSup_le (tnSet_nonempty J) ?_
+  rintro x ⟨W, hW, rfl⟩
+  have h := diamond_choi_lower J W (psd_block_of_contraction hW)
+  have e : cbObj J W = (W * J).trace.re := by rw [cbObj, hJ.eq, Matrix.trace_mul_comm]
+  rwa [e, div_le_iff₀ hcard] at h
+
+open Toq.Metrics in
+/-- **The diamond distance of two Hermiticity-preserving maps lies between the trace norm of the normalised and of the
+unnormalised Choi-matrix difference**: `‖J1 − J2‖₁ / dX ≤ ‖Φ1 − Φ2‖_◇ ≤ ‖J1 − J2‖₁`. -/
+theorem diamond_choi_bounds [Nonempty X] {J1 J2 : Choi X Y} (h1 : J1.IsHermitian) (h2 : J2.IsHermitian) :
+    traceNormV (J1 - J2) / Fintype.card X ≤ cbNorm (J1 - J2) ∧ cbNorm (J1 - J2) ≤ traceNormV (J1 - J2) :=
+  ⟨diamond_choi_lower_traceNorm (h1.sub h2), diamond_choi_upper (h1.sub h2)⟩
+
+open Toq.Metrics in
+/-- **The cb trace norm dominates the trace norm of the output on every pure input state of `X ⊗ X`**: for every `A` with
+`tr(A Aᴴ) = 1` (the state `vec A`, reduced state `A Aᴴ`), `‖(A ⊗ 1)ᴴ J (A ⊗ 1)‖₁ ≤ ‖Φ‖_◇`; the sandwiched Choi matrix is the
+output of `Φ ⊗ id` on that state (up to the transpose convention of the Choi isomorphism).  Feasible point:
+`ρ0 = ρ1 = A Aᴴ`, `Z = (A ⊗ 1) K (A ⊗ 1)ᴴ` for a Hermitian contraction `K`. -/
+theorem cb_ge_sandwich_traceNorm {J : Choi X Y} (hJ : J.IsHermitian) (A : Matrix X X ℂ) (hA : (A * Aᴴ).trace = 1) :
+    traceNormV ((A ⊗ₖ (1 : Matrix Y Y ℂ))ᴴ * J * (A ⊗ₖ (1 : Matrix Y Y ℂ))) ≤ cbNorm J := by
+  set D := A ⊗ₖ (1 : Matrix Y Y ℂ) with hD
+  refine csSup_le (tnSet_nonempty _) ?_
+  rintro x ⟨K, hK, rfl⟩
+  have hρ : IsDensity (A * Aᴴ) := ⟨Matrix.posSemidef_self_mul_conjTranspose A, hA⟩
+  have hDD : D * Dᴴ = (A * Aᴴ) ⊗ₖ (1 : Matrix Y Y ℂ) := by
+    rw [hD, Matrix.conjTranspose_kronecker, ← Matrix.mul_kronecker_mul, Matrix.conjTranspose_one, Matrix.mul_one]
+  have hfeas : CbPrimalFeasible (A * Aᴴ) (A * Aᴴ) (D * K * Dᴴ) :=
+    ⟨hρ, hρ, by rw [← hDD]; exact psd_block_sandwich hK D⟩
+  have h := cbObj_le_cbNorm J hfeas
+  have e : cbObj J (D * K * Dᴴ) = (K * (Dᴴ * J * D)).trace.re := by
+    rw [cbObj, hJ.eq]
+    congr 1
+    calc (J * (D * K * Dᴴ)).trace = ((J * D) * (K * Dᴴ)).trace := by simp only [Matrix.mul_assoc]
+      _ = ((K * Dᴴ) * (J * D)).trace := Matrix.trace_mul_comm _ _
+      _ = _ := by simp only [Matrix.mul_assoc]
+  rwa [e] at h
+
+/-! ## Two unitary (isometry) channels
+
+`choiK K` is the Choi matrix of `X ↦ K X Kᴴ` in toqito's convention (`J = vec(K) vec(K)ᴴ`, `vec(K)_{(a,y)} = K_{ya}`). -/
+
+/-- The Choi matrix `choiK U` of an isometry channel is a channel Choi matrix, and its cb trace norm is 1. -/
+theorem cb_isometry_channel_one [Nonempty X] {U : Matrix Y X ℂ} (hU : Uᴴ * U = 1) : cbNorm (choiK U) = 1 :=
+  cb_channel_one (choiK_posSemidef U) (ptr2_choiK_of_isometry hU)
+
+open Toq.Metrics in
+/-- **Lower bound for two isometry channels**: for every density operator `ρ` on the input space,
+`2 √(1 − |tr(ρ Uᴴ V)|²) ≤ ‖Φ_U − Φ_V‖_◇` (primal-feasible point from the pure state with reduced state `ρ`; the value is the
+trace distance of two pure states, C13 `traceNormV_pure_pure`). -/
+theorem diamond_two_unitaries_lower {U V : Matrix Y X ℂ} (hU : Uᴴ * U = 1) (hV : Vᴴ * V = 1) {ρ : Matrix X X ℂ}
+    (hρ : IsDensity ρ) :
+    2 * Real.sqrt (1 - ‖(ρ * (Uᴴ * V)).trace‖ ^ 2) ≤ cbNorm (choiK U - choiK V) := by
+  obtain ⟨B, hρB⟩ := exists_mul_conjTranspose_of_posSemidef hρ.1
+  have hBt : (B * Bᴴ).trace = 1 := by rw [← hρB]; exact hρ.2
+  obtain ⟨hP, hQ, hov⟩ := overlap_choiK hU hV hBt
+  set A : Matrix X X ℂ := (Bᵀ)ᴴ with hAdef
+  have hAA : (A * Aᴴ).trace = 1 := by
+    have : A * Aᴴ = (B * Bᴴ)ᵀ := by
+      have hsw : (Bᵀ)ᴴ = (Bᴴ)ᵀ := by ext i j; rfl
+      rw [hAdef, Matrix.conjTranspose_conjTranspose, Matrix.transpose_mul, hsw]
+    rw [this, Matrix.trace_transpose, hBt]
+  have hJ : (choiK U - choiK V).IsHermitian := (choiK_isHermitian U).sub (choiK_isHermitian V)
+  have h := cb_ge_sandwich_traceNorm hJ A hAA
+  have e : (A ⊗ₖ (1 : Matrix Y Y ℂ))ᴴ * (choiK U - choiK V) * (A ⊗ₖ (1 : Matrix Y Y ℂ))
+      = choiK (U * B) - choiK (V * B) := by
+    have hA1 : (A ⊗ₖ (1 : Matrix Y Y ℂ))ᴴ = Bᵀ ⊗ₖ (1 : Matrix Y Y ℂ) := by
+      rw [Matrix.conjTranspose_kronecker, hAdef, Matrix.conjTranspose_conjTranspose, Matrix.conjTranspose_one]
+    have hA2 : (A ⊗ₖ (1 : Matrix Y Y ℂ)) = (Bᵀ ⊗ₖ (1 : Matrix Y Y ℂ))ᴴ := by
+      rw [← hA1, Matrix.conjTranspose_conjTranspose]
+    rw [choiK_mul, choiK_mul, hA1, ← hA2, Matrix.mul_sub, Matrix.sub_mul]
+  rw [e] at h
+  have hpp := traceNormV_pure_pure hP hQ
+  rw [hov, ← hρB] at hpp
+  linarith
+
+/-- **Upper bound for two isometry channels**: if the Hermitian part of `Uᴴ V` is at least `δ·1` with `0 ≤ δ ≤ 1`, then
+`‖Φ_U − Φ_V‖_◇ ≤ 2 √(1 − δ²)` (explicit dual-feasible point `two_unitary_dual_cert`; for `δ = 1` the channels are equal). -/
+theorem diamond_two_unitaries_upper [Nonempty X] {U V : Matrix Y X ℂ} (hU : Uᴴ * U = 1) (hV : Vᴴ * V = 1) {δ : ℝ}
+    (h0 : 0 ≤ δ) (h1 : δ ≤ 1)
+    (hH : (((1 / 2 : ℝ) : ℂ) • (Uᴴ * V + (Uᴴ * V)ᴴ) - (δ : ℂ) • (1 : Matrix X X ℂ)).PosSemidef) :
+    cbNorm (choiK U - choiK V) ≤ 2 * Real.sqrt (1 - δ ^ 2) := by
+  rcases h1.lt_or_eq with hlt | heq
+  · obtain ⟨Y0, hm, hp, hc⟩ := two_unitary_dual_cert hU hV h0 hlt hH
+    exact cbNorm_le_of_pm ((choiK_isHermitian U).sub (choiK_isHermitian V)) hm hp hc
+  · subst heq
+    have hUV : U = V := eq_of_herm_ge_one hU hV (by simpa using hH)
+    rw [hUV, diamond_self_zero]
+    norm_num
+
+/-- the numerical range of `W` in density-operator form: all `tr(ρ W)`, `ρ` a density operator (a convex set; for a normal
+`W` it is the convex hull of the eigenvalues, `numRange_eq_convexHull`) -/
+def numRange (W : Matrix X X ℂ) : Set ℂ := {z | ∃ ρ : Matrix X X ℂ, IsDensity ρ ∧ (ρ * W).trace = z}
+
+/-- **The two-unitary diamond-distance formula, numerical-range form**: for isometries `U`, `V` (in particular unitaries)
+let `δ` be the distance from the origin to the numerical range of `Uᴴ V` (attained: some point of the range has modulus `δ`,
+and every point has modulus at least `δ`).  Then `‖Φ_U − Φ_V‖_◇ = 2 √(1 − δ²)`. -/
+theorem diamond_two_unitaries [Nonempty X] {U V : Matrix Y X ℂ} (hU : Uᴴ * U = 1) (hV : Vᴴ * V = 1) {δ : ℝ}
+    (hatt : ∃ z ∈ numRange (Uᴴ * V), ‖z‖ = δ) (hmin : ∀ z ∈ numRange (Uᴴ * V), δ ≤ ‖z‖) :
+    cbNorm (choiK U - choiK V) = 2 * Real.sqrt (1 - δ ^ 2) := by
+  obtain ⟨c, ⟨ρ₀, hρ₀, hc⟩, hcδ⟩ := hatt
+  have hlow := diamond_two_unitaries_lower hU hV hρ₀
+  rw [hc, hcδ] at hlow
+  refine le_antisymm ?_ hlow
+  have hδ0 : 0 ≤ δ := hcδ ▸ norm_nonneg c
+  have hδ1 : δ ≤ 1 := by
+    obtain ⟨B, hρB⟩ := exists_mul_conjTranspose_of_posSemidef hρ₀.1
+    have hBt : (B * Bᴴ).trace = 1 := by rw [← hρB]; exact hρ₀.2
+    have := norm_trace_density_mul_le_one hU hV hBt
+    rwa [← hρB, hc, hcδ] at this
+  rcases hδ0.eq_or_lt with h0 | hpos
+  · -- the origin lies in the numerical range: the trivial bound 2
+    rw [← h0]
+    have := diamond_le_two (choiK_posSemidef U) (choiK_posSemidef V) (ptr2_choiK_of_isometry hU)
+      (ptr2_choiK_of_isometry hV)
+    simpa using this
+  · obtain ⟨ω, hω, hH⟩ := herm_part_ge_of_nearest hρ₀.1 hρ₀.2 hpos (by rw [hc]; exact hcδ)
+      (fun ρ hρ ht => hmin _ ⟨ρ, ⟨hρ, ht⟩, rfl⟩)
+    have hV' : (ω • V)ᴴ * (ω • V) = 1 := by
+      rw [Matrix.conjTranspose_smul, Matrix.smul_mul, Matrix.mul_smul, smul_smul, mul_comm, hω, one_smul, hV]
+    have hW' : Uᴴ * (ω • V) = ω • (Uᴴ * V) := by rw [Matrix.mul_smul]
+    have := diamond_two_unitaries_upper hU hV' hδ0 hδ1 (by rw [hW']; exact hH)
+    rwa [choiK_smul_phase ω hω] at this
+
+omit [DecidableEq X] in
+/-- the numerical range is convex -/
+theorem numRange_convex (W : Matrix X X ℂ) : Convex ℝ (numRange W) := by
+  rintro _ ⟨ρ, hρ, rfl⟩ _ ⟨σ, hσ, rfl⟩ a b ha hb hab
+  refine ⟨(a : ℂ) • ρ + (b : ℂ) • σ, ⟨(hρ.1.smul (by exact_mod_cast ha)).add (hσ.1.smul (by exact_mod_cast hb)), ?_⟩, ?_⟩
+  · rw [Matrix.trace_add, Matrix.trace_smul, Matrix.trace_smul, hρ.2, hσ.2]
+    simp only [smul_eq_mul, mul_one]
+    exact_mod_cast hab
+  · rw [Matrix.add_mul, Matrix.smul_mul, Matrix.smul_mul, Matrix.trace_add, Matrix.trace_smul, Matrix.trace_smul]
+    simp only [Complex.real_smul, smul_eq_mul]
+
+open Toq.Metrics in
+/-- **Numerical range of a unitarily diagonalised matrix = convex hull of its eigenvalues**: if `W = S diag(λ) Sᴴ` with `S`
+unitary, then `{tr(ρ W) | ρ density}` is the convex hull of the `λ_i` (`tr(ρ W) = Σ_i (Sᴴ ρ S)_{ii} λ_i`). -/
+theorem numRange_eq_convexHull {W S : Matrix X X ℂ} {lam : X → ℂ} (hS : Sᴴ * S = 1) (hS' : S * Sᴴ = 1)
+    (hW : W = S * diagonal lam * Sᴴ) : numRange W = convexHull ℝ (Set.range lam) := by
+  refine Set.Subset.antisymm ?_ (convexHull_min ?_ (numRange_convex W))
+  · rintro _ ⟨ρ, hρ, rfl⟩
+    have hT : (Sᴴ * ρ * S).PosSemidef := by
+      have := hρ.1.mul_mul_conjTranspose_same Sᴴ
+      rwa [Matrix.conjTranspose_conjTranspose] at this
+    have hdiag : ∀ i, (Sᴴ * ρ * S) i i = (((Sᴴ * ρ * S) i i).re : ℂ) := fun i => by
+      have h := hT.diag_nonneg (i := i)
+      rw [Complex.nonneg_iff] at h
+      exact Complex.ext rfl (by simpa using h.2.symm)
+    refine mem_convexHull_of_exists_fintype (fun i => ((Sᴴ * ρ * S) i i).re) lam (fun i => ?_) ?_
+      (fun i => Set.mem_range_self i) ?_
+    · have h := hT.diag_nonneg (i := i)
+      rw [Complex.nonneg_iff] at h
+      exact h.1
+    · have htr : (Sᴴ * ρ * S).trace = 1 := by
+        rw [Matrix.trace_mul_comm, ← Matrix.mul_assoc, hS', Matrix.one_mul, hρ.2]
+      have : ((∑ i, ((Sᴴ * ρ * S) i i).re : ℝ) : ℂ) = 1 := by
+        rw [Complex.ofReal_sum, ← htr, Matrix.trace]
+        exact Finset.sum_congr rfl fun i _ => (hdiag i).symm
+      exact_mod_cast this
+    · rw [hW, trace_mul_diagonalised]
+      refine Finset.sum_congr rfl fun i _ => ?_
+      rw [Complex.real_smul, ← hdiag i]
+  · rintro _ ⟨i, rfl⟩
+    refine ⟨conjDiag S (ind i), ⟨conjDiag_posSemidef S fun j => by unfold ind; split_ifs <;> norm_num, ?_⟩, ?_⟩
+    · rw [conjDiag_trace hS, ← Complex.ofReal_sum]
+      simp [ind]
+    · rw [hW, trace_mul_diagonalised]
+      have e : Sᴴ * conjDiag S (ind i) * S = diagonal fun j => ((ind i j : ℝ) : ℂ) := by
+        unfold conjDiag
+        calc Sᴴ * (S * diagonal (fun j => ((ind i j : ℝ) : ℂ)) * Sᴴ) * S
+            = (Sᴴ * S) * diagonal (fun j => ((ind i j : ℝ) : ℂ)) * (Sᴴ * S) := by simp only [Matrix.mul_assoc]
+          _ = _ := by rw [hS, Matrix.one_mul, Matrix.mul_one]
+      rw [e]
+      simp only [Matrix.diagonal_apply_eq, ind]
+      rw [Finset.sum_eq_single i]
+      · simp
+      · intro j _ hj; simp [hj]
+      · intro h; exact absurd (Finset.mem_univ i) h
+
+/-- **The two-unitary diamond-distance formula, eigenvalue form**: if `Uᴴ V = S diag(λ) Sᴴ` with `S` unitary (the `λ_i` are
+then the eigenvalues of `Uᴴ V`; every unitary matrix has such a diagonalisation), and `δ` is the distance from the origin to
+the convex hull of the `λ_i`, then `‖Φ_U − Φ_V‖_◇ = 2 √(1 − δ²)`. -/
+theorem diamond_two_unitaries_eigenvalues [Nonempty X] {U V : Matrix Y X ℂ} (hU : Uᴴ * U = 1) (hV : Vᴴ * V = 1)
+    {S : Matrix X X ℂ} {lam : X → ℂ} (hS : Sᴴ * S = 1) (hS' : S * Sᴴ = 1) (hW : Uᴴ * V = S * diagonal lam * Sᴴ) :
+    cbNorm (choiK U - choiK V)
+      = 2 * Real.sqrt (1 - Metric.infDist (0 : ℂ) (convexHull ℝ (Set.range lam)) ^ 2) := by
+  have hN := numRange_eq_convexHull hS hS' hW
+  have hcomp : IsCompact (convexHull ℝ (Set.range lam)) := (Set.finite_range lam).isCompact_convexHull ℝ
+  have hne : (convexHull ℝ (Set.range lam)).Nonempty :=
+    ⟨lam (Classical.arbitrary X), subset_convexHull ℝ _ (Set.mem_range_self _)⟩
+  obtain ⟨z, hz, hzd⟩ := hcomp.exists_infDist_eq_dist hne (0 : ℂ)
+  refine diamond_two_unitaries hU hV ⟨z, hN ▸ hz, ?_⟩ fun w hw => ?_
+  · rw [hzd, dist_zero_left]
+  · have := Metric.infDist_le_dist_of_mem (x := (0 : ℂ)) (hN ▸ hw)
+    rwa [dist_zero_left] at this
+
+/-! ## Channel fidelity versus the fidelity of the Choi states
+
+`Toq.Metrics.fidV ρ σ` is the (root) fidelity of C13: the optimum of Watrous' program `sup Re tr X`, `[[ρ, X],[Xᴴ, σ]] ⪰ 0`,
+proved there to equal the closed form `tr √(√ρ σ √ρ)` (`Toq.Metrics.fidV_eq_docFid`). -/
+
+open Toq.Metrics in
+/-- **The channel fidelity never exceeds the fidelity of the normalised Choi states**, `F(Φ1, Φ2) ≤ F(J1/dX, J2/dX)`, for
+completely positive maps: a feasible `(λ, Q)` of the channel-fidelity program gives the feasible point `X = Qᴴ/dX` of the
+fidelity program of the Choi states, whose value `Re tr(Q)/dX = tr(Herm Tr_Y Q)/dX` is at least `λ`. -/
+theorem chanFid_le_choi_fidelity [Nonempty X] {J1 J2 : Choi X Y} (h1 : J1.PosSemidef) (h2 : J2.PosSemidef) :
+    chanFid J1 J2 ≤ fidV ((((Fintype.card X : ℝ)⁻¹ : ℝ) : ℂ) • J1) ((((Fintype.card X : ℝ)⁻¹ : ℝ) : ℂ) • J2) := by
+  have hcard : (0 : ℝ) < Fintype.card X := by exact_mod_cast Fintype.card_pos
+  set t : ℝ := (Fintype.card X : ℝ)⁻¹ with ht
+  have htpos : 0 ≤ t := inv_nonneg.mpr hcard.le
+  have htc : (0 : ℂ) ≤ (t : ℂ) := by exact_mod_cast htpos
+  have hρ := h1.smul htc
+  have hσ := h2.smul htc
+  refine Real.sSup_le ?_ (le_csSup (fidSet_bddAbove _ _) (zero_mem_fidSet hρ hσ))
+  rintro lam ⟨Q, -, hB, hL⟩
+  have hX : FidFeasible ((t : ℂ) • J1) ((t : ℂ) • J2) ((t : ℂ) • Qᴴ) := by
+    unfold FidFeasible
+    have := hB.smul htc
+    rw [Matrix.fromBlocks_smul] at this
+    rwa [Matrix.conjTranspose_smul, Matrix.conjTranspose_conjTranspose, Complex.star_def, Complex.conj_ofReal]
+  have hv := le_fidV_gen hX
+  have htr := hL.trace_nonneg
+  rw [Complex.nonneg_iff] at htr
+  have h1' := htr.1
+  rw [Matrix.trace_sub, Matrix.trace_smul, Matrix.trace_smul, Matrix.trace_add, Matrix.trace_conjTranspose,
+    trace_ptr2, Matrix.trace_one, Complex.sub_re, smul_eq_mul, smul_eq_mul, Complex.re_ofReal_mul,
+    Complex.re_ofReal_mul, Complex.add_re, Complex.star_def, Complex.conj_re] at h1'
+  rw [Matrix.trace_smul, Matrix.trace_conjTranspose, smul_eq_mul, Complex.re_ofReal_mul, Complex.star_def,
+    Complex.conj_re] at hv
+  have hcr : ((Fintype.card X : ℂ)).re = (Fintype.card X : ℝ) := by simp
+  rw [hcr] at h1'
+  have : lam ≤ t * Q.trace.re := by
+    have e : t * (Fintype.card X : ℝ) = 1 := by rw [ht]; exact inv_mul_cancel₀ hcard.ne'
+    have h3 : lam * (Fintype.card X : ℝ) ≤ Q.trace.re := by linarith
+    have h4 := mul_le_mul_of_nonneg_left h3 htpos
+    have h5 : t * (lam * (Fintype.card X : ℝ)) = lam := by rw [mul_comm lam, ← mul_assoc, e, one_mul]
+    linarith
+  linarith
+
+open Toq.Metrics in
+/-- the same bound with the closed form of the fidelity: `F(Φ1, Φ2) ≤ tr √(√ρ1 ρ2 √ρ1)` for the Choi states `ρ_i = J_i/dX` -/
+theorem chanFid_le_choi_fidelity_closed_form [Nonempty X] {J1 J2 : Choi X Y} (h1 : J1.PosSemidef)
+    (h2 : J2.PosSemidef) :
+    chanFid J1 J2 ≤ docFid ((((Fintype.card X : ℝ)⁻¹ : ℝ) : ℂ) • J1) ((((Fintype.card X : ℝ)⁻¹ : ℝ) : ℂ) • J2) := by
+  have hcard : (0 : ℝ) < Fintype.card X := by exact_mod_cast Fintype.card_pos
+  have htc : (0 : ℂ) ≤ (((Fintype.card X : ℝ)⁻¹ : ℝ) : ℂ) := by exact_mod_cast inv_nonneg.mpr hcard.le
+  rw [← fidV_eq_docFid (h1.smul htc) (h2.smul htc)]
+  exact chanFid_le_choi_fidelity h1 h2
+
+/-! ## Diamond distance and completely bounded spectral norm as the code defines them -/
+
+/-- `diamond_distance(J1, J2) = completely_bounded_trace_norm(J1 − J2)` -/
+noncomputable def diamondDist (J1 J2 : Choi X Y) : ℝ := cbNorm (J1 - J2)
+
+/-- `completely_bounded_spectral_norm(J) = completely_bounded_trace_norm(dual_channel(J))`: the cb spectral norm is DEFINED
+(in toqito and here) as the cb trace norm of the adjoint map, whose Choi matrix on `Y ⊗ X` is `dualChoi J` -/
+noncomputable def cbSpectral (J : Choi X Y) : ℝ := cbNorm (dualChoi J)
+
+/-- Taking the adjoint twice gives the map back, so the cb trace norm is the cb spectral norm of the adjoint. -/
+theorem cbSpectral_dual (J : Choi X Y) : cbSpectral (dualChoi J) = cbNorm J := by
+  rw [cbSpectral, dualChoi_dualChoi]
+
+/-- **cb spectral norm of a completely positive map = operator norm of `Φ(1) = Tr_X J`**: if `c·1 ⪰ Tr_X J` and some density
+operator `ρ` on the output space attains `tr(ρ Tr_X J) = c`, then the cb spectral norm is `c`. -/
+theorem cbSpectral_cp_eq [Nonempty Y] {J : Choi X Y} {c : ℝ} (hJ : J.PosSemidef)
+    (hc : ((c : ℂ) • (1 : Matrix Y Y ℂ) - ptr1 J).PosSemidef) {ρ : Matrix Y Y ℂ} (hρ : IsDensity ρ)
+    (hatt : (ρ * ptr1 J).trace.re = c) : cbSpectral J = c := by
+  have hT := ptr2_dualChoi_of_herm hJ.isHermitian
+  refine cb_cp_eq (dualChoi_posSemidef hJ) ?_ (ρ := ρᵀ) ⟨hρ.1.transpose, by rw [Matrix.trace_transpose, hρ.2]⟩ ?_
+  · rw [hT]
+    have := hc.transpose
+    rwa [Matrix.transpose_sub, Matrix.transpose_smul, Matrix.transpose_one] at this
+  · rw [hT, ← Matrix.transpose_mul, Matrix.trace_transpose, Matrix.trace_mul_comm]
+    exact hatt
+
+/-- **The cb spectral norm of a unital completely positive map is 1** (in particular of the adjoint of every channel). -/
+theorem cbSpectral_unital_one [Nonempty Y] {J : Choi X Y} (hJ : J.PosSemidef) (hU : ptr1 J = 1) : cbSpectral J = 1 := by
+  refine cb_channel_one (dualChoi_posSemidef hJ) ?_
+  rw [ptr2_dualChoi_of_herm hJ.isHermitian, hU, Matrix.transpose_one]
+
+/-- **Both completely bounded norms of a unitary channel are 1** (co-isometry `U Uᴴ = 1` for the spectral norm: the map is unital). -/
+theorem cbSpectral_unitary_channel_one [Nonempty Y] {U : Matrix Y X ℂ} (hU : U * Uᴴ = 1) : cbSpectral (choiK U) = 1 :=
+  cbSpectral_unital_one (choiK_posSemidef U) (by rw [ptr1_choiK, hU])
+
+/-- **The cb trace norm of a completely positive map is at most `tr J`**, the number the CP shortcut of
+`completely_bounded_trace_norm` returns as coded (`cpShortcutAsCoded_toC`); the two agree exactly when `Tr_Y J = Φ*(1)` has at
+most one non-zero eigenvalue (known finding `c20-cb-cp-shortcut-trace-norm`: the shortcut applies the dual map to an identity of
+the size of the Choi matrix instead of the size of the output space). -/
+theorem cb_cp_le_trace [Nonempty X] {J : Choi X Y} (hJ : J.PosSemidef) : cbNorm J ≤ J.trace.re := by
+  have hc := psd_trace_smul_one_sub (ptr2_posSemidef hJ)
+  rw [trace_ptr2] at hc
+  exact cb_cp_le hJ hc
+
+/-- **The two-unitary diamond-distance formula, closed form for every pair of unitaries**: for unitary `U`, `V` on the same space
+the matrix `Uᴴ V` has a unitary diagonalisation `S diag(λ) Sᴴ` (spectral theorem for unitary matrices,
+`exists_unitary_diagonalisation`); the `λ_i` are its eigenvalues (its characteristic polynomial is `∏ (X − λ_i)`), and
+`‖Φ_U − Φ_V‖_◇ = 2 √(1 − δ²)` with `δ` the distance from the origin to the convex hull of the `λ_i`. -/
+theorem diamond_two_unitaries_closed_form [Nonempty X] {U V : Matrix X X ℂ} (hU : Uᴴ * U = 1) (hV : Vᴴ * V = 1) :
+    ∃ (S : Matrix X X ℂ) (lam : X → ℂ), Sᴴ * S = 1 ∧ S * Sᴴ = 1 ∧ Uᴴ * V = S * diagonal lam * Sᴴ ∧
+      (Uᴴ * V).charpoly = ∏ i, (Polynomial.X - Polynomial.C (lam i)) ∧
+      cbNorm (choiK U - choiK V)
+        = 2 * Real.sqrt (1 - Metric.infDist (0 : ℂ) (convexHull ℝ (Set.range lam)) ^ 2) := by
+  have hU' : U * Uᴴ = 1 := mul_eq_one_comm.mp hU
+  have hW : (Uᴴ * V)ᴴ * (Uᴴ * V) = 1 := by
+    rw [Matrix.conjTranspose_mul, Matrix.conjTranspose_conjTranspose]
+    calc Vᴴ * U * (Uᴴ * V) = Vᴴ * (U * Uᴴ) * V := by simp only [Matrix.mul_assoc]
+      _ = 1 := by rw [hU', Matrix.mul_one, hV]
+  obtain ⟨S, lam, hS, hS', hWd⟩ := exists_unitary_diagonalisation hW
+  exact ⟨S, lam, hS, hS', hWd, charpoly_of_diagonalisation hS hWd, diamond_two_unitaries_eigenvalues hU hV hS hS' hWd⟩
+
+/-! ## Closed forms without side conditions, composition with unitary channels on the Kraus level -/
+
+/-- **cb trace norm of a completely positive map = largest eigenvalue of `Tr_Y J = Φ*(1)`** (its operator norm), with no side
+condition: the certificate `c·1 ⪰ Tr_Y J` and the attaining density operator of `cb_cp_eq` come from the spectral theorem. -/
+theorem cb_cp_eq_max_eigenvalue [Nonempty X] {J : Choi X Y} (hJ : J.PosSemidef) :
+    cbNorm J = Finset.univ.sup' Finset.univ_nonempty (ptr2_posSemidef hJ).isHermitian.eigenvalues := by
+  set hT := (ptr2_posSemidef hJ).isHermitian
+  obtain ⟨i₀, -, hi₀⟩ := Finset.exists_mem_eq_sup' Finset.univ_nonempty hT.eigenvalues
+  have hmax : ∀ i, hT.eigenvalues i ≤ hT.eigenvalues i₀ := fun i => hi₀ ▸ Finset.le_sup' hT.eigenvalues (Finset.mem_univ i)
+  obtain ⟨hc, ρ, hρ, htr, hatt⟩ := max_eigenvalue_cert hT i₀ hmax
+  rw [hi₀]
+  exact cb_cp_eq hJ hc ⟨hρ, htr⟩ hatt
+
+/-- **cb spectral norm of a completely positive map = largest eigenvalue of `Tr_X J = Φ(1)`**, with no side condition. -/
+theorem cbSpectral_cp_eq_max_eigenvalue [Nonempty Y] {J : Choi X Y} (hJ : J.PosSemidef) :
+    cbSpectral J = Finset.univ.sup' Finset.univ_nonempty (ptr1_posSemidef hJ).isHermitian.eigenvalues := by
+  set hT := (ptr1_posSemidef hJ).isHermitian
+  obtain ⟨i₀, -, hi₀⟩ := Finset.exists_mem_eq_sup' Finset.univ_nonempty hT.eigenvalues
+  have hmax : ∀ i, hT.eigenvalues i ≤ hT.eigenvalues i₀ := fun i => hi₀ ▸ Finset.le_sup' hT.eigenvalues (Finset.mem_univ i)
+  obtain ⟨hc, ρ, hρ, htr, hatt⟩ := max_eigenvalue_cert hT i₀ hmax
+  rw [hi₀]
+  exact cbSpectral_cp_eq hJ hc ⟨hρ, htr⟩ hatt
+
+/-- **The diamond distance is unchanged when both channels are composed with the same unitaries**, on the Kraus level: for maps
+`Φ1 = Σ_i K_i · K_iᴴ`, `Φ2 = Σ_j L_j · L_jᴴ` and unitaries `A` (applied first) and `B` (applied last), the maps with Kraus operators
+`B K_i A`, `B L_j A` have the same diamond distance (their Choi matrices are those of `Φ1`, `Φ2` conjugated by `Aᵀ ⊗ B`, toqito's
+`kraus_to_choi` convention). -/
+theorem diamond_compose_unitaries {r s : Type*} [Fintype r] [Fintype s] (K : r → Matrix Y X ℂ) (L : s → Matrix Y X ℂ)
+    {A : Matrix X X ℂ} {B : Matrix Y Y ℂ} (hA : Aᴴ * A = 1) (hA' : A * Aᴴ = 1) (hB : B * Bᴴ = 1) (hB' : Bᴴ * B = 1) :
+    cbNorm ((∑ i, choiK (B * K i * A)) - ∑ j, choiK (B * L j * A))
+      = cbNorm ((∑ i, choiK (K i)) - ∑ j, choiK (L j)) := by
+  have hT : (Aᵀ)ᴴ * Aᵀ = 1 := by
+    have : (Aᵀ)ᴴ = (Aᴴ)ᵀ := by ext i j; rfl
+    rw [this, ← Matrix.transpose_mul, hA', Matrix.transpose_one]
+  have hT' : Aᵀ * (Aᵀ)ᴴ = 1 := by
+    have : (Aᵀ)ᴴ = (Aᴴ)ᵀ := by ext i j; rfl
+    rw [this, ← Matrix.transpose_mul, hA, Matrix.transpose_one]
+  have e : (∑ i, choiK (B * K i * A)) - ∑ j, choiK (B * L j * A)
+      = (Aᵀ ⊗ₖ B) * ((∑ i, choiK (K i)) - ∑ j, choiK (L j)) * (Aᵀ ⊗ₖ B)ᴴ := by
+    simp only [choiK_mul_mul]
+    rw [← Finset.sum_mul, ← Finset.sum_mul, ← Finset.mul_sum, ← Finset.mul_sum, ← Matrix.sub_mul, ← Matrix.mul_sub]
+  rw [e]
+  exact diamond_unitary_invariant hT hT' hB hB' _
+
 end Programs
 
 /-! ## Soundness of the executable certificate checkers -/
@@ -523,6 +920,94 @@ theorem cf_bracket (J1 J2 Q : EMat (dX * dY) (dX * dY)) (lam : Rat) (ρ : EMat d
 
 end Checkers
 
+/-! ## The code paths around the programs (mirror `Toq.Model.ChanMetricsPath`) -/
+
+section Paths
+open EMat Toq.ChannelProps
+variable {d : Nat}
+
+/-- A non-square argument is rejected (`ValueError`) before anything else. -/
+theorem cbPath_notSquare {rows cols : Nat} (h : rows ≠ cols) (cp tp : Verdict) : cbPath rows cols cp tp = CbPath.notSquare := by
+  unfold cbPath; rw [if_pos h]
+
+/-- **Shortcut `return 1`**: when the mirrored `is_quantum_channel` answers yes (exact certificates: `J` Hermitian with a PSD
+witness, `Tr_Y J = 1` exactly), the cb trace norm of the denoted map IS 1 — the value the code returns on that path. -/
+theorem cbPath_channelOne_sound (hd : 0 < d) {k : Nat} (J : EMat (d * d) (d * d)) (L : Option (EMat (d * d) k))
+    (v : Option (EMat (d * d) 1)) (h : cbPath (d * d) (d * d) (psdV J L v) (tpV J) = CbPath.channelOne) :
+    cbNorm (toP J) = 1 := by
+  have : Nonempty (Fin d) := ⟨⟨0, hd⟩⟩
+  unfold cbPath at h
+  rw [if_neg (by simp)] at h
+  cases hcp : psdV J L v <;> rw [hcp] at h <;> simp only [reduceCtorEq] at h
+  cases htp : tpV J <;> rw [htp] at h <;> simp only [reduceCtorEq] at h
+  exact cb_channel_one (psdV_yes_sound J L v hcp) (tpV_yes_sound J htp)
+
+/-- **CP shortcut, as coded**: on that path the denoted Choi matrix is positive semidefinite, the `1 × 1` matrix the code
+computes is `tr J` (real, non-negative; its nuclear norm is what is returned), and this number is an UPPER bound of the cb
+trace norm — not the cb trace norm `λ_max(Tr_Y J)` itself (`cb_cp_eq`; known finding). -/
+theorem cbPath_cpShortcut_sound (hd : 0 < d) {k : Nat} (J : EMat (d * d) (d * d)) (L : Option (EMat (d * d) k))
+    (v : Option (EMat (d * d) 1)) (h : cbPath (d * d) (d * d) (psdV J L v) (tpV J) = CbPath.cpShortcut) :
+    (toP J).PosSemidef ∧ (cpShortcutAsCoded d J).toC = (((toP J).trace.re : ℝ) : ℂ) ∧ 0 ≤ (toP J).trace.re ∧
+      cbNorm (toP J) ≤ (toP J).trace.re := by
+  have : Nonempty (Fin d) := ⟨⟨0, hd⟩⟩
+  unfold cbPath at h
+  rw [if_neg (by simp)] at h
+  cases hcp : psdV J L v <;> rw [hcp] at h <;> simp only [reduceCtorEq] at h
+  have hP := psdV_yes_sound J L v hcp
+  have htr := hP.trace_nonneg
+  rw [Complex.nonneg_iff] at htr
+  refine ⟨hP, ?_, htr.1, cb_cp_le_trace hP⟩
+  rw [cpShortcutAsCoded_toC]
+  apply Complex.ext
+  · simp
+  · simp [← htr.2]
+
+/-- **SDP path**: the subsystem dimension the code infers from a `d² × d²` Choi matrix (`round(sqrt(d²))`) is `d`, for every
+`d` — so the partial traces in the program are `Tr_Y` on `X ⊗ Y` with `dX = dY = d`. -/
+theorem cbPath_sdp_dim (cp tp : Verdict) {dim : Nat} (h : cbPath (d * d) (d * d) cp tp = CbPath.sdp dim) : dim = d := by
+  unfold cbPath at h
+  rw [if_neg (by simp)] at h
+  cases cp <;> simp only [reduceCtorEq] at h
+  · cases tp <;> simp only [reduceCtorEq] at h
+  · rw [roundSqrt_sq] at h
+    exact (CbPath.sdp.inj h).symm
+
+/-- The SDP path is taken exactly when the mirrored `is_completely_positive` answers no. -/
+theorem cbPath_sdp_iff (cp tp : Verdict) : cbPath (d * d) (d * d) cp tp = CbPath.sdp d ↔ cp = Verdict.no := by
+  unfold cbPath
+  rw [if_neg (by simp)]
+  cases cp <;> cases tp <;> simp [roundSqrt_sq]
+
+/-- **`channel_fidelity` is defined for every local dimension**: for two `d² × d²` Choi matrices the guards pass and the inferred
+local dimension is `d`, for every `d`. -/
+theorem cfPath_sq (d : Nat) : cfPath (d * d) (d * d) (d * d) (d * d) = CfPath.sdp (d * d) d := by
+  unfold cfPath
+  simp [roundSqrt_sq]
+
+/-- Arguments of different shapes, and non-square arguments, are rejected (`ValueError`). -/
+theorem cfPath_guards (r1 c1 r2 c2 : Nat) :
+    ((r1 ≠ r2 ∨ c1 ≠ c2) → cfPath r1 c1 r2 c2 = CfPath.shapeMismatch) ∧
+      (r1 = r2 → c1 = c2 → r1 ≠ c1 → cfPath r1 c1 r2 c2 = CfPath.notSquare) := by
+  unfold cfPath
+  constructor
+  · intro h; rw [if_pos h]
+  · intro h1 h2 h3
+    rw [if_neg (by simp [h1, h2]), if_pos h3]
+
+/-- The executable mirror of `dual_channel` denotes the Choi matrix of the adjoint map, so
+`completely_bounded_spectral_norm` as coded (cb trace norm of `dual_channel(J)`) is `cbSpectral` of the denoted map. -/
+theorem cbSpectral_model {dX dY : Nat} (J : EMat (dX * dY) (dX * dY)) :
+    cbNorm (toP (dualChoiE dX dY J)) = cbSpectral (toP J) := by
+  rw [toP_dualChoiE, cbSpectral]
+
+/-- The slack of the second constraint of `channel_fidelity` in the model is the matrix of `CfPrimalFeasible`. -/
+theorem cfLoewnerSlack_toM {dX dY : Nat} (Q : EMat (dX * dY) (dX * dY)) (lam : Rat) :
+    (cfLoewnerSlack dX dY Q lam).toM
+      = ((1 / 2 : ℝ) : ℂ) • (ptr2 (toP Q) + (ptr2 (toP Q))ᴴ) - ((lam : ℝ) : ℂ) • (1 : Matrix (Fin dX) (Fin dX) ℂ) := by
+  rw [cfLoewnerSlack, toM_sub, toM_hermPart, toM_scalar, toM_ptrY]
+
+end Paths
+
 /-! ## The checkers accept concrete instances (so the hypotheses of the soundness theorems are satisfiable)
 
 * the transpose map on a qubit (`J = SWAP`, Hermiticity-preserving, not CP): cb trace norm `2 = dX`, attained by both certificates;
@@ -567,6 +1052,49 @@ example : checkCfPrimal 2 2 dephJ depolJ (dg [7/10, 0, 0, 7/10]) (7/10)
 example : checkCfDual 2 2 dephJ depolJ (dg [1, 0]) (dg [16/25, 100, 0, 0]) (dg [25/16, 1/100, 0, 0]) zero
     (spm [(0, 0, 4/5), (4, 0, -5/4), (1, 1, 10), (5, 1, -1/10)]) = some (1141/1600) := by
   decide +kernel
+
+/-! the code paths on concrete instances: the completely dephasing channel takes `return 1`, the CP map `diag(2,1,0,1)` the CP
+shortcut (coded value `tr J = 4`, cb trace norm 3), the transpose map (not CP: `v = e01 − e10` is a negative witness) the SDP with
+subsystem dimension 2 -/
+
+example : cbPath (2 * 2) (2 * 2) (Toq.ChannelProps.psdV dephJ (some dephJ) none) (Toq.ChannelProps.tpV dephJ)
+    = CbPath.channelOne := by decide +kernel
+
+example : cbPath (2 * 2) (2 * 2) (Toq.ChannelProps.psdV cpJ (some (dg [1, 1, 0, 1] : EMat (2 * 2) (2 * 2))) none)
+    (Toq.ChannelProps.tpV cpJ) = CbPath.cpShortcut ∧ cpShortcutAsCoded 2 cpJ = ⟨4, 0⟩ := by decide +kernel
+
+example : cbPath (2 * 2) (2 * 2)
+    (Toq.ChannelProps.psdV swapJ (none : Option (EMat (2 * 2) 0)) (some (spm [(1, 0, 1), (2, 0, -1)])))
+    (Toq.ChannelProps.tpV swapJ) = CbPath.sdp 2 := by decide +kernel
+
+example : cfPath 25 25 25 25 = CfPath.sdp 25 5 ∧ cfPath 4 4 9 9 = CfPath.shapeMismatch ∧ cfPath 4 6 4 6 = CfPath.notSquare := by
+  decide +kernel
+
+/-- the hypotheses of the two-unitary formula are satisfiable: identity versus the phase gate `diag(1, i)` -/
+example : ∃ (U V S : Matrix (Fin 2) (Fin 2) ℂ) (lam : Fin 2 → ℂ), Uᴴ * U = 1 ∧ Vᴴ * V = 1 ∧ Sᴴ * S = 1 ∧ S * Sᴴ = 1 ∧
+    Uᴴ * V = S * diagonal lam * Sᴴ ∧ lam 0 ≠ lam 1 := by
+  refine ⟨1, diagonal ![1, Complex.I], 1, ![1, Complex.I], by simp, ?_, by simp, by simp, by simp, ?_⟩
+  · rw [Matrix.diagonal_conjTranspose, Matrix.diagonal_mul_diagonal, ← Matrix.diagonal_one]
+    congr 1
+    funext i
+    fin_cases i <;> simp
+  · simp only [Matrix.cons_val_zero, Matrix.cons_val_one]
+    intro h
+    have := congrArg Complex.re h
+    simp at this
+
+/-! hypotheses of the general theorems are satisfiable -/
+
+example : (1 : Choi (Fin 2) (Fin 2)).IsHermitian := Matrix.isHermitian_one
+
+/-- a reduced state for `cb_ge_sandwich_traceNorm` -/
+example : ((diagonal ![1, 0] : Matrix (Fin 2) (Fin 2) ℂ) * (diagonal ![1, 0])ᴴ).trace = 1 := by
+  rw [Matrix.diagonal_conjTranspose, Matrix.diagonal_mul_diagonal, Matrix.trace_diagonal]
+  simp
+
+/-- the identity channel: both completely bounded norms are 1 -/
+example : cbNorm (choiK (1 : Matrix (Fin 2) (Fin 2) ℂ)) = 1 ∧ cbSpectral (choiK (1 : Matrix (Fin 2) (Fin 2) ℂ)) = 1 :=
+  ⟨cb_isometry_channel_one (by simp), cbSpectral_unitary_channel_one (by simp)⟩
 
 end Examples
 
